@@ -56,6 +56,8 @@ UNIFORM = {
     "a8w4": fr.cdesc(fr.tdesc(8, False), fr.tdesc(4, True, "CHANNELWISE"), "INTEGER"),
     "drq8": fr.cdesc(None, fr.tdesc(8, True, "CHANNELWISE"), "INTEGER"),
     "drq4": fr.cdesc(None, fr.tdesc(4, True, "TENSORWISE"), "INTEGER"),
+    "drq8t": fr.cdesc(None, fr.tdesc(8, True, "TENSORWISE"), "INTEGER"),
+    "drq4c": fr.cdesc(None, fr.tdesc(4, True, "CHANNELWISE"), "INTEGER"),
     "wo8": fr.cdesc(None, fr.tdesc(8, True, "CHANNELWISE"), "FLOAT", True),
     "wo8a": fr.cdesc(None, fr.tdesc(8, False, "TENSORWISE"), "FLOAT", True),
     "wo4": fr.cdesc(None, fr.tdesc(4, True, "CHANNELWISE"), "FLOAT", True),
@@ -117,6 +119,12 @@ def apply_recipe(q, cmds):
     """returns number of accepted commands"""
     n = 0
     for c in cmds:
+        if c.get("k") == "quantize":   # history noise: an earlier quantize() on the same object (result and errors ignored)
+            try:
+                q.quantize()
+            except Exception:  # noqa: BLE001
+                pass
+            continue
         try:
             cfg = None if c["cfg"] is None else fr.mk_cfg(c["cfg"])
             q.update_quantization_recipe(c["regex"], c["operation"], cfg, c["alg"])
@@ -381,6 +389,13 @@ def _worker(conn):
             conn.send(("ok", outs))
         except Exception as e:  # noqa: BLE001
             conn.send(("error", f"{type(e).__name__}: {str(e)[:300]}"))
+
+
+def interp_err_class(r):
+    """call-site class of an interpreter failure: kernel file + failed condition, digits masked"""
+    msg = re.sub(r"\d+", "N", str(r[1] if isinstance(r, tuple) else r))
+    msg = msg.replace("RuntimeError: ", "")
+    return (str(r[0]) + ":" if isinstance(r, tuple) else "") + msg[:70]
 
 
 class Interp:
